@@ -1,4 +1,4 @@
-from math import acos, sqrt, degrees
+from math import acos, sqrt, degrees, pi
 from typing import Union, List, TYPE_CHECKING, Tuple, Iterator, Dict
 
 if TYPE_CHECKING:
@@ -236,8 +236,13 @@ class Atoms():
         direction = v1[0] * v2[1] * v3[2] - v1[2] * v2[1] * v3[0] + v1[2] * v2[0] * v3[1] - v1[0] \
                     * v2[2] * v3[1] + v1[1] * v2[2] * v3[0] - v1[1] * v2[0] * v3[2]
         # angle between plane normals:
-        ang = acos((a[0] * b[0] + a[1] * b[1] + a[2] * b[2]) / (
-                sqrt(a[0] * a[0] + a[1] * a[1] + a[2] * a[2]) * sqrt(b[0] * b[0] + b[1] * b[1] + b[2] * b[2])))
+        cosine = (a[0] * b[0] + a[1] * b[1] + a[2] * b[2]) / (
+                sqrt(a[0] * a[0] + a[1] * a[1] + a[2] * a[2]) * sqrt(b[0] * b[0] + b[1] * b[1] + b[2] * b[2]))
+        try:
+            ang = acos(cosine)
+        except ValueError:
+            # Four atoms in one plane: rounding can push the quotient one unit in the last place beyond +-1.
+            ang = 0.0 if cosine > 0 else pi
         return degrees(ang) if direction >= 0 else degrees(-ang)
 
     def atoms_in_class(self, name: str) -> list:
